@@ -390,13 +390,15 @@ impl Run<'_> {
                 d["replay_json"] = j.clone();
                 report_panic(ctx, &info, stage, &format!("{} of a validated {}", stage, e.name), d, bytes.as_deref());
             }
-            Outcome::ReadError { bytes, err } => {
-                let tag = variant_tag(e, j);
+            Outcome::ReadError { bytes, err, written } => {
+                let tag = variant_tag(e, &written);
                 ctx.count("reread_errors", 1);
                 let mut d = detail(json!({"read_error": err, "bytes_len": bytes.len()}));
                 d["replay_json"] = j.clone();
                 let mut inc = vec![];
-                rules::inconsistencies(j, &mut inc);
+                // the canonical value (what the type really holds), not the raw
+                // JSON: serde ignores keys the type does not have
+                rules::inconsistencies(&written, &mut inc);
                 if inc.is_empty() {
                     ctx.violation(&format!("reread-error:{}:{}:{}", e.name, tag, err), d, Some(&bytes));
                 } else {
@@ -464,7 +466,8 @@ impl Run<'_> {
                 let mut failure: Option<String> = None;
                 if let Some(d) = unexplained {
                     let (owner, otag, rel) = self.owner_of(ti, &done.written, d);
-                    failure = Some(format!("roundtrip-mismatch:{}:{}:{}", owner, otag, rel.trim_start_matches('.')));
+                    let refine = special::refine_signature(&owner, &rel, &done.written, d);
+                    failure = Some(format!("roundtrip-mismatch:{}:{}:{}{}", owner, otag, rel.trim_start_matches('.'), refine));
                 } else if carve_out {
                     // the re-read value legitimately carries trailing data of
                     // its siblings: byte idempotence is not defined for it
@@ -497,7 +500,8 @@ impl Run<'_> {
                 }
                 // which optional / version-gated fields did this consistent,
                 // strictly round-tripped value carry?
-                if node_count(&done.written) <= 4000 {
+                // (large values: one in eight, the walk costs as much as the case)
+                if node_count(&done.written) <= 4000 || self.stats[ti].variants % 8 == 0 || mutation.starts_with("lift") || mutation.starts_with("seed(") {
                     let mut inc = vec![];
                     rules::inconsistencies(&done.written, &mut inc);
                     if inc.is_empty() {
@@ -807,7 +811,15 @@ pub fn run(ctx: &mut Ctx, args: &Args) {
 
     // work items: (type, seed), numbered deterministically
     let mut item = 0usize;
+    let mut type_time: Vec<(f64, &str)> = vec![];
     for (ti, e) in entries.iter().enumerate() {
+        let t_type = ctx.elapsed_s();
+        if ti > 0 {
+            if let Some(l) = type_time.last_mut() {
+                l.0 = t_type - l.0;
+            }
+        }
+        type_time.push((t_type, e.name));
         let ts = &h.seeds[ti];
         let mut chosen: Vec<&Seed> = vec![];
         // typed seeds first (they are in primary), then shape-distinct, then the rest
@@ -882,6 +894,11 @@ pub fn run(ctx: &mut Ctx, args: &Args) {
         }
     }
     ctx.extra.insert("work_items".into(), json!(item));
+    if let Some(l) = type_time.last_mut() {
+        l.0 = ctx.elapsed_s() - l.0;
+    }
+    type_time.sort_by(|a, b| b.0.partial_cmp(&a.0).unwrap_or(std::cmp::Ordering::Equal));
+    ctx.extra.insert("slowest_types_s".into(), json!(type_time.iter().take(12).map(|(t, n)| json!([n, (t * 10.0).round() / 10.0])).collect::<Vec<_>>()));
 
     if !only_main {
         special::run_special(ctx);
